@@ -68,13 +68,13 @@ type kvRead struct {
 }
 
 type kvExec struct {
-	n      int
-	dir    string
-	d      db.DB
-	w      *kvWrite
-	r      *kvRead
-	probes []chan struct{}
-	resets int
+	n       int
+	dir     string
+	d       db.DB
+	w       *kvWrite
+	r       *kvRead
+	probes  []chan struct{}
+	resets  int
 	opsOnDB int
 }
 
